@@ -116,7 +116,7 @@ def rules(P, R, prefix="C03"):
             for b in bumps:
                 if b["k"] == "assign":
                     val = ctx.term(b["r"])
-                    if val == "max(%s.round,self.%s)" % (blk, LVR) or val == blk + ".round":
+                    if val in ("max(%s.round,self.%s)" % (blk, LVR), "max(self.%s,%s.round)" % (LVR, blk), blk + ".round"):
                         good = b
                 else:
                     a = call_args(b)
